@@ -4,12 +4,13 @@ pub mod pairs;
 include!("../../shared/conv_forms.rs");
 use pairs::*;
 
-fn run_pair<S: VF + PartialOrd<D>, D: VF + PartialOrd<S>>(st: usize, op: u16, a: u128, b: u128, outs: &mut Outs) {
+fn run_pair<S: VF + PartialOrd<D> + lay::AzAll<D>, D: VF + PartialOrd<S>>(st: usize, op: u16, a: u128, b: u128, outs: &mut Outs) {
     let x = S::from_raw(a);
     match op {
         CONV_FF => {
             to_num_forms::<S, D>(st, 0, x, |d| d.raw(), outs);
             from_num_forms::<D, S>(st, 6, x, outs);
+            lay::az_forms::<S, D>(st, 12, lay::AZ_TO, x, |d| d.raw(), outs);
         }
         _ => cmp_forms(st, 0, x, D::from_raw(b), outs),
     }
